@@ -323,7 +323,10 @@ def gen_kind_files(tr, X, rng, meta, tier):
     (soundness / round trips / derived quantities) for parallel checking"""
     import sympy as sp
     files = {}
-    for group in ('sound', 'round', 'derived'):
+    # thorough tier: every deep round trip (nsatz-heavy) gets a file of its own so that they spread over the cores
+    groups = ['sound', 'round', 'derived'] + (['round:' + Y for Y in KINDS if Y != X] if tier != 'quick' else [])
+    for group0 in groups:
+        group, _, only = group0.partition(':')
         out = [HEADER % (tr.path, tr.sha), 'Require Import Gen.TwoPortGen.\n', 'Section Obl.\nVariable K : fld.\nAdd Field KFo : (fth K).\n']
         examples = []
         names = []
@@ -370,6 +373,8 @@ def gen_kind_files(tr, X, rng, meta, tier):
                     if tier == 'quick' and depth > 3:
                         meta['deferred'].append('conv_roundtrip_%s_%s' % (X, Y))
                         continue
+                    if tier != 'quick' and ((depth > 3 and only != Y) or (depth <= 3 and only)):
+                        continue       # shallow pairs stay in C08_X_round.v, a deep pair goes to C08_X_round_Y.v
                     facs, vals, syms = tr.atoms([(ir, None)])
                     statement('conv_roundtrip_%s_%s' % (X, Y), [(ir, None), (irb, vals[0])],
                               '%s_%sparams Z0 (%s_%sparams Z0 %s) = %s' % (Y, X, X, Y, M, M),
@@ -392,7 +397,7 @@ def gen_kind_files(tr, X, rng, meta, tier):
         out.extend(examples)
         out.append('\n'.join('Print Assumptions %s.' % n for n in names))
         if names:
-            files['C08_%s_%s.v' % (X, group)] = '\n'.join(out) + '\n'
+            files['C08_%s_%s.v' % (X, group0.replace(':', '_'))] = '\n'.join(out) + '\n'
     return files
 
 
@@ -596,7 +601,7 @@ def run(tier='quick', replay=None):
                 if bad:
                     res.failed_obl.append(('gate', 'generated', '; '.join(bad)))
                     res.obligations += 1
-                results = core.coqc_many(w.dir, files, timeout=900 if tier == 'quick' else 2400)
+                results = core.coqc_many(w.dir, files, timeout=900 if tier == 'quick' else 6000)
                 res.coq_results(w.dir, results, {f: texts[f] for f in files})
                 res.extra['coq_seconds'] = {f: round(r[2], 1) for f, r in results.items()}
                 res.extra['degenerate_definitions'] = meta['degenerate']
